@@ -1,5 +1,101 @@
-(* Wire entry points of the C12 model (stub until the model is built). *)
-From Coq Require Import ZArith List.
-From SG Require Import Base.Sx.
+(* Wire entry points of the C12 models (evaluation cache of Function; polynomial family and its integrals). *)
+From Coq Require Import ZArith List QArith Qcanon Bool.
+From SG Require Import Base.Sx Base.QcUtil Model.FunCache Model.FunPoly.
+Import ListNotations.
 Open Scope Z_scope.
-Definition entry_C12 (sub : Z) (a : sx) : sx := sx_err 0.
+
+(* ---------------------------------------------------------------- decoding *)
+Definition get_kv (s : sx) : option (point * value) :=
+  match s with
+  | Lv [p; v] => match get_LQc p, get_LQc v with Some p, Some v => Some (p, v) | _, _ => None end
+  | _ => None
+  end.
+Definition get_dict (s : sx) : option dict :=
+  match s with Lv l => opt_all (map get_kv l) | _ => None end.
+
+Definition get_op (s : sx) : option op :=
+  match s with
+  | Lv [Zv 0; p] => match get_LQc p with Some p => Some (OSingle p) | None => None end
+  | Lv [Zv 1; ps] => match get_LLQc ps with Some ps => Some (OBatch ps) | None => None end
+  | Lv [Zv 2; ps] => match get_LLQc ps with Some ps => Some (OVec ps) | None => None end
+  | Lv [Zv 3] => Some OReset
+  | Lv [Zv 4] => Some ODeact
+  | Lv [Zv 5] => Some OSize
+  | _ => None
+  end.
+Definition get_ops (s : sx) : option (list op) :=
+  match s with Lv l => opt_all (map get_op l) | _ => None end.
+
+(* ---------------------------------------------------------------- encoding *)
+Definition of_err (e : err) : Z := match e with EUnbound => 1 | EIndex => 2 | EOutLen => 3 end.
+Definition of_result (r : result) : sx :=
+  match r with
+  | RSingle v => Lv [Zv 0; of_LQc v]
+  | RBatch vs => Lv [Zv 1; of_LLQc vs]
+  | RVec vs => Lv [Zv 2; of_LLQc vs]
+  | RUnit => Lv [Zv 3]
+  | RSize n => Lv [Zv 5; Zv (Z.of_nat n)]
+  | RErr e => Lv [Zv (-1); Zv (of_err e)]
+  end.
+Definition of_dict (d : dict) : sx := Lv (map (fun kv => Lv [of_LQc (fst kv); of_LQc (snd kv)]) d).
+Definition of_step (rs : result * state) : sx :=
+  Lv [of_result (fst rs); Zv (Z.of_nat (length (fd (snd rs)))); of_dict (fd (snd rs)); sx_bool (cache (snd rs))].
+
+(* ---------------------------------------------------------------- polynomial family *)
+Definition get_atom (s : sx) : option atom :=
+  match s with
+  | Lv [Zv 0; v] => match get_Qc v with Some v => Some (FConst v) | None => None end
+  | Lv [Zv 1; cs] => match get_LQc cs with Some cs => Some (FLinear cs) | None => None end
+  | Lv [Zv 2; cs] => match get_LQc cs with Some cs => Some (FMultilinear cs) | None => None end
+  | Lv [Zv 3; cs; Zv deg] => match get_LQc cs with Some cs => Some (FPolynomial cs (Z.to_nat deg)) | None => None end
+  | Lv [Zv 4; cs] => match get_LQc cs with Some cs => Some (FPoly1d cs) | None => None end
+  | _ => None
+  end.
+Definition get_atom_w (s : sx) : option (atom * Qc) :=
+  match s with
+  | Lv [f; w] => match get_atom f, get_Qc w with Some f, Some w => Some (f, w) | _, _ => None end
+  | _ => None
+  end.
+Definition get_fn (s : sx) : option fn :=
+  match s with
+  | Lv [Zv 5; Lv fs] => match opt_all (map get_atom_w fs) with Some fs => Some (FCompose fs) | None => None end
+  | _ => match get_atom s with Some f => Some (FAtom f) | None => None end
+  end.
+Definition of_ires (r : ires) : sx :=
+  match r with IVal q => Lv [Zv 0; of_Qc q] | INone => Lv [Zv 1] | IErr => Lv [Zv 2] end.
+
+Definition is_linear (f : fn) : option (list Qc) := match f with FAtom (FLinear cs) => Some cs | _ => None end.
+
+Definition poly_point (f : fn) (n : nat) (x : list Qc) : sx :=
+  Lv [of_ires (fn_eval f x); of_Qc (mp_eval (fn_denote n f) x);
+      match is_linear f with Some cs => Lv [of_Qc (linear_vectorized_row cs x)] | None => Lv [] end].
+Definition poly_box (f : fn) (n : nat) (ab : sx) : sx :=
+  match ab with
+  | Lv [a; b] =>
+    match get_LQc a, get_LQc b with
+    | Some a, Some b => Lv [of_ires (fn_int false f a b); of_ires (fn_int true f a b); of_Qc (mp_int (fn_denote n f) a b)]
+    | _, _ => sx_err 4
+    end
+  | _ => sx_err 4
+  end.
+
+(* sub 0: (olen (fix_single fix_empty) table ops) -> ((result size dict cache_on) ...)   [eval := table lookup]
+   sub 1: (fn n points boxes) -> ((dim_ok) (per point: eval, denotation value, vectorised row)
+                                  (per box: integral as coded, integral after fixes, formal integral)) *)
+Definition entry_C12 (sub : Z) (a : sx) : sx :=
+  match sub, a with
+  | 0, Lv [Zv olen; Lv [fs; fe]; tab; ops] =>
+    match get_bool fs, get_bool fe, get_dict tab, get_ops ops with
+    | Some fs, Some fe, Some tab, Some ops =>
+        Lv (map of_step (run (eval_tab tab) (Z.to_nat olen) (mkVar fs fe) init ops))
+    | _, _, _, _ => sx_err 1
+    end
+  | 1, Lv [f; Zv n; Lv pts; Lv boxes] =>
+    match get_fn f, opt_all (map get_LQc pts) with
+    | Some f, Some pts =>
+        let n := Z.to_nat n in
+        Lv [sx_bool (fn_dim_ok n f); Lv (map (poly_point f n) pts); Lv (map (poly_box f n) boxes)]
+    | _, _ => sx_err 2
+    end
+  | _, _ => sx_err 0
+  end.
